@@ -135,4 +135,5 @@ def main():
             rec['error'] = type(e).__name__ + ': ' + str(e)[:300]
         out.append(rec)
     print(json.dumps(out))
-main()
+if __name__ == '__main__':
+    main()
